@@ -47,6 +47,7 @@ CLASS = {
     "decorated": "import functools\n\n\ndef deco(fn):\n    @functools.wraps(fn)\n    def wrapper(*a, **k):\n        return fn(*a, **k)\n\n    return wrapper\n\n\n@deco\ndef f(a: int) -> int:\n    return a\n\n\nclass K:\n    @functools.cached_property\n    def cp(self) -> int:\n        return 1\n\n    @deco\n    def m(self) -> int:\n        return 2\n",
 }
 CLASS.update({
+    "names-with-double-underscore": "def load__raw_data(first__arg: int, _: int = 0, __: int = 1) -> int:\n    ...\n\n\nclass Data__Set:\n    some__attr: int = 1\n\n    def get__it(self, x__y: int) -> int:\n        ...\n\n\ndef __(x: int) -> int:\n    ...\n\n\ndef trailing__(a: int) -> int:\n    ...\n",
     "generic-paramspec": "from typing import Callable, Generic, ParamSpec, TypeVar\n\nP = ParamSpec(\"P\")\nT = TypeVar(\"T\")\n\n\nclass Handler(Generic[P]):\n    def call(self, *args: P.args, **kwargs: P.kwargs) -> int:\n        ...\n\n\n"
                          "class Both(Generic[T, P]):\n    def __init__(self, f: Callable[P, T]):\n        self.f = f\n\n    def m(self, x: T) -> T:\n        ...\n\n\ndef deco(f: Callable[P, T]) -> Callable[P, T]:\n    ...\n",
     "generic-typevartuple": "from typing import Generic, TypeVarTuple, Unpack\n\nTs = TypeVarTuple(\"Ts\")\n\n\nclass Shape(Generic[Unpack[Ts]]):\n    def dims(self) -> int:\n        ...\n\n\nclass Star(Generic[*Ts]):\n    def dims(self, *a: *Ts) -> int:\n        ...\n",
